@@ -607,6 +607,10 @@ func runC11(p *core.Prog, r *core.Report) {
 				switch kind {
 				case "zero":
 					r.OK("C11-R2", c, p.Pos(in.Pos()), "slot reset to the invalid pair (0,0)")
+					if fn == remove {
+						// a range may sit in several slots (added twice): the reset is repeated for every match, i.e. it lies in a loop
+						r.Check(sx.InnermostLoop(fn, in.Block()) != nil, "C11-R6", "Remove clears every slot that holds the range", p.Pos(in.Pos()), "the reset is inside the scan loop", "the slot reset in Remove is not inside a loop: only the first matching slot is cleared, a range added twice survives one Remove")
+					}
 				case "copy":
 					r.OK("C11-R2", c, p.Pos(in.Pos()), "slot copied from another slot (already canonical)")
 				case "pair":
@@ -1055,6 +1059,100 @@ func runC11(p *core.Prog, r *core.Report) {
 					bad = append(bad, "insert at "+p.Pos(in.Pos())+" in "+fnName(fn))
 				}
 			})
+		}
+		// all maps exist once the switch happened — some loop creates one for every element on each of its iterations —
+		// or each insert is itself behind a nil test / a creation of that very element
+		allMade := false
+		for _, fn := range fi.AllFuncs {
+			sx.Instrs(fn, func(in ssa.Instruction) {
+				st, ok := in.(*ssa.Store)
+				if !ok {
+					return
+				}
+				if _, isMake := sx.Unspill(st.Val).(*ssa.MakeMap); !isMake {
+					return
+				}
+				ia, ok := st.Addr.(*ssa.IndexAddr)
+				if !ok {
+					return
+				}
+				if fa, ok := ia.X.(*ssa.FieldAddr); !ok || sx.FieldOf(fa) != syms.ipMaps {
+					// …or a local array of the same type, filled completely and then assigned to the field as a whole
+					al, isLocal := ia.X.(*ssa.Alloc)
+					if !isLocal || !types.Identical(ptrTo(al.Type()), syms.ipMaps.Type()) {
+						return
+					}
+				}
+				h := sx.InnermostLoop(fn, in.Block())
+				if h == nil || len(h.Instrs) == 0 {
+					return
+				}
+				every := true
+				for be := range sx.BackEdgesTo(h) {
+					if len(be.From.Instrs) == 0 {
+						continue
+					}
+					term := be.From.Instrs[len(be.From.Instrs)-1]
+					if term != in && sx.ReachInstr(fn, h.Instrs[0], term, sx.Cut{Instrs: map[ssa.Instruction]bool{in: true}}) {
+						every = false
+					}
+				}
+				if every {
+					allMade = true
+				}
+			})
+		}
+		if !allMade {
+			for _, fn := range fi.AllFuncs {
+				sx.Instrs(fn, func(in ssa.Instruction) {
+					mu, ok := in.(*ssa.MapUpdate)
+					if !ok {
+						return
+					}
+					j, isElem := syms.mapIndex(mu.Map)
+					if !isElem {
+						return
+					}
+					jb, jk := affine(j)
+					guard := sx.Cut{Edges: map[sx.Edge]bool{}, Instrs: map[ssa.Instruction]bool{}}
+					sx.Instrs(fn, func(i2 ssa.Instruction) {
+						switch x := i2.(type) {
+						case *ssa.BinOp:
+							if x.Op != token.EQL && x.Op != token.NEQ {
+								return
+							}
+							for _, pr := range [][2]ssa.Value{{x.X, x.Y}, {x.Y, x.X}} {
+								if !sx.IsNilConst(pr[1]) {
+									continue
+								}
+								if j2, ok := syms.mapIndex(pr[0]); ok {
+									if b2, k2 := affine(j2); b2 == jb && k2 == jk {
+										_, nonNil := sx.NilEdges(pr[0])
+										for e := range nonNil {
+											guard.Edges[e] = true
+										}
+									}
+								}
+							}
+						case *ssa.Store:
+							if _, isMake := sx.Unspill(x.Val).(*ssa.MakeMap); !isMake {
+								return
+							}
+							if ia, ok := x.Addr.(*ssa.IndexAddr); ok {
+								if fa, ok := ia.X.(*ssa.FieldAddr); ok && sx.FieldOf(fa) == syms.ipMaps {
+									if b2, k2 := affine(ia.Index); b2 == jb && k2 == jk {
+										guard.Instrs[i2] = true
+									}
+								}
+							}
+						}
+					})
+					if (len(guard.Edges) == 0 && len(guard.Instrs) == 0) || !sx.MustPass(fn, nil, in, guard) {
+						bad = append(bad, "insert at "+p.Pos(in.Pos())+" in "+fnName(fn)+" (the maps are created on demand, but this insert is not behind a nil test or a creation of its own map)")
+						nonFresh = append(nonFresh, "nil: no loop creates a map for every element")
+					}
+				})
+			}
 		}
 		r.Check(len(bad) == 0, "C11-R3", "map inserts never meet a nil map", "-", fmt.Sprintf("%d assignment(s) of the per-length maps, all fresh maps (or the inserting function tests for nil)", nStores), "an element of the per-length map array can be "+strings.Join(uniq(nonFresh), ", ")+" but "+strings.Join(uniq(bad), ", ")+" assigns into it without a nil test: Add panics (assignment to entry in nil map) while holding the write lock")
 	}
